@@ -257,7 +257,9 @@ var typedDocNames = []string{"tdoc-ptr", "tdoc-val", "tslice", "tmap", "tdoc-sha
 func init() {
 	fields := []string{"nums", "strs", "objs", "pObjs", "grid", "any", "m.a", "@", "ptr.nums", "ptr.strs", "gen", "objs[*].t", "objs[0].t"}
 	fns := []string{"sort(%s)", "reverse(%s)", "sort_by(%s, &@)", "sort_by(%s, &k)", "max(%s)", "min(%s)", "sum(%s)", "avg(%s)", "join(',', %s)", "length(%s)", "to_array(%s)", "map(&@, %s)", "max_by(%s, &k)", "min_by(%s, &@)",
-		"contains(%s, `1`)", "not_null(%s)", "to_string(%s)", "type(%s)", "%s[]", "%s[::-1]", "%s[::2]", "%s[1::3]", "%s[1:20:3]", "%s[:5]", "%s[2:]", "%s[?@]", "%s[*]", "%s | sort(@)", "[%s, %s] | [0] | sort(@)", "%s[*] | sort(@)", "keys(%s)", "merge(%s)"}
+		"contains(%s, `1`)", "not_null(%s)", "to_string(%s)", "type(%s)", "%s[]", "%s[::-1]", "%s[::2]", "%s[1::3]", "%s[1:20:3]", "%s[:5]", "%s[2:]", "%s[?@]", "%s[*]", "%s | sort(@)", "[%s, %s] | [0] | sort(@)", "%s[*] | sort(@)", "keys(%s)", "merge(%s)",
+		// the same field read before, inside and after a call that might reorder it
+		"[%s[0], sort(%s)[0], %s[-1]]", "[%s[0], sort_by(%s, &@)[0], %s[-1]]", "[%s, reverse(%s), %s]", "[%s[0], max(%s), min(%s), %s[0]]", "[%s[0], sort_by(%s, &k)[0], %s[0]]", "[join('', %s), sort(%s), join('', %s)]"}
 	for _, f := range fields {
 		for _, fn := range fns {
 			typedExprs = append(typedExprs, strings.Replace(fn, "%s", f, -1))
